@@ -103,6 +103,15 @@ Theorem C02_lattice_no_ms_crossing : forall k c, c = 100100 \/ c = 100000 ->
 Proof. exact lattice_no_ms_crossing. Qed.
 Print Assumptions C02_lattice_no_ms_crossing.
 
+(* ---- the two repaired SAMI defects, on record (pre-fix variants of the model) ------------------- *)
+Theorem C02_sami_float_start_refuted : exists t, (0 <= t)%Q /\ parse_int (sami_token_unfixed t) = None.
+Proof. exact sami_float_start_refuted. Qed.
+Print Assumptions C02_sami_float_start_refuted.
+Theorem C02_sami_blank_after_ms0_refuted :
+  exists caps, ok_sami_ms caps (map sev_obs (sami_events_unfixed caps None 0)) = false.
+Proof. exact sami_blank_after_ms0_refuted. Qed.
+Print Assumptions C02_sami_blank_after_ms0_refuted.
+
 (* ---- non-vacuity ------------------------------------------------------------------------------ *)
 Example C02_ex_fmt : format_ts 44 (inject_Z 86399999999) = lit "23:59:59,999" /\ format_ts 46 (inject_Z 3600000000) = lit "01:00:00.000".
 Proof. vm_compute. split; reflexivity. Qed.
